@@ -7,7 +7,9 @@ import (
 	"flag"
 	"fmt"
 	"os"
+	"runtime"
 	"runtime/debug"
+	"runtime/pprof"
 	"time"
 
 	"github.com/thanos-community/promql-engine/verifshim"
@@ -32,7 +34,10 @@ func main() {
 	flag.Parse()
 
 	verifshim.SetControlled(*mode == "controlled")
-	debug.SetGCPercent(400)
+	// fewer collections, but a hard ceiling: sixteen workers share the machine, and the
+	// engine allocates a sync.Pool family per operator
+	debug.SetGCPercent(300)
+	debug.SetMemoryLimit(1536 << 20)
 	fs, err := findings.Load(*ffile)
 	if err != nil {
 		fmt.Fprintln(os.Stderr, "vworker: findings:", err)
@@ -50,9 +55,25 @@ func main() {
 	if len(prop) > 3 {
 		prop = prop[:3]
 	}
+	if os.Getenv("VERIF_MEMLOG") != "" {
+		go func() {
+			for {
+				time.Sleep(10 * time.Second)
+				var m runtime.MemStats
+				runtime.ReadMemStats(&m)
+				fmt.Fprintf(os.Stderr, "mem: heap=%dMB sys=%dMB goroutines=%d live=%d\n", m.HeapAlloc>>20, m.Sys>>20, runtime.NumGoroutine(), verifshim.Live())
+			}
+		}()
+	}
 	c := check.NewCtx(prop, *tier, *shard, *nshards, *seed, fs, *out+".progress", time.Duration(*budget)*time.Second)
 	c.LoadSkips(*skipfile)
 	f(c)
+	if os.Getenv("VERIF_MEMLOG") != "" {
+		runtime.GC()
+		hf, _ := os.Create("/tmp/heap.prof")
+		pprof.WriteHeapProfile(hf)
+		hf.Close()
+	}
 	rep := c.Finish()
 	b, _ := json.Marshal(rep)
 	if *out == "" {
